@@ -50,7 +50,7 @@ def generate(ctx):
     for ci, (m, mode) in enumerate(combos):
         if ci % ctx.nshards != ctx.shard:
             continue
-        cfg = gen.gen_cfg(rng, scale=rng.choice([1.0, 1.0, 1e-2, 1e2]), gammas=["default", "default", "dep"])
+        cfg = league.league_cfg(rng, gen, scale=rng.choice([1.0, 1.0, 1e-2, 1e2]), gammas=["default", "default", "dep"])
         yield "league", dict(model=m, cfg=cfg, players=40, games=G, mode=mode, seed=rng.randrange(2 ** 31), percall=True)
 
 
